@@ -38,6 +38,14 @@ CHECKS = {
          "Held on every explored update history: after every one of 1-40 map-style / node-style updates every accessor of the read-only and the mutable view of the attribute and namespace maps of two sibling elements is compared with an ordered-map model, return values included, and the serialised start tags are read back by an independent XML reader; exploration, not proof.",
          "Key pools of 4 names / 4 prefixes; histories <= 40 steps.",
          "reference-model monitor (ordered map) after every step"),
+ "C13": ("DESIGN.md §5 C13",
+         "Held on every explored pair: deep_equal (both directions), deep_equal_xpath (4 comparators), advanced_deep_equal (4 filters), deep_equal_children, shallow_equal, shallow_equal_ignore_attributes (6 ignore-list shapes incl. repeated names) and string_value are compared with definitions computed from abstract trees, over base trees, 16 kinds of single-feature mutants, copies and independent trees, inner nodes, attribute-node and namespace-node pairs, and triples for transitivity; exploration, not proof.",
+         "For two namespace nodes only 'same prefix and URI' and 'different URI' are judged; trees <= 20 nodes.",
+         "differential oracle against canonical forms of abstract trees"),
+ "C18": ("DESIGN.md §5 C18",
+         "Held on every explored tree: the rule of the statement is evaluated on the abstract tree, and the tree and handle list after remove_insignificant_whitespace must equal the tree before minus exactly the predicted text nodes; a second call must change nothing; trees with every sibling arrangement of whitespace-only / Unicode-space / mixed / empty / adjacent text and nested xml:space values; exploration, not proof.",
+         "An inner text node is not used as the call's argument (merging by remove under consolidation is documented behaviour).",
+         "before/after read-back against the stated rule"),
  "C01": ("DESIGN.md §5 C01",
          "Held on every explored tree: >=10^5 (quick) / >=3*10^6 (thorough) abstract documents and fragments from a hostile generator are realised through the creation API, parsing and manipulation histories, serialised, reparsed and compared by an independent read-back; exploration, not proof.",
          "Trusts the harness's own read-back and tree equality; trees <= 40 nodes, depth <= 8, hostile but finite alphabet.",
